@@ -17,7 +17,7 @@ from concurrent.futures import ThreadPoolExecutor
 import vlib
 
 PROP_FILE = "Props/Properties_C12.v"
-WRAPS = ("read", "write", "recv", "select", "close", "open", "free", "accept",
+WRAPS = ("read", "write", "recv", "select", "close", "open", "free", "accept", "fcntl", "fcntl64",
          "pthread_mutex_lock", "pthread_mutex_unlock", "pthread_mutex_destroy")
 ASAN_ENV = {"ASAN_OPTIONS": "detect_leaks=1:abort_on_error=0:allocator_may_return_null=1:print_suppressions=0"}
 EXISTING = b"C:/proc/self/exe"
@@ -87,6 +87,96 @@ def m_scale(f, palm=False):
 
 # reference sessions in which connection 0 is a witness: nothing another connection does may change its stream
 WITNESS_REFS = ("shared", "auth", "big", "filetransfer", "truncated", "scaled", "listen")
+
+
+# ---------------------------------------------------------------- transport sessions (oracle only)
+# Connections that reach rfbNewClient by another route than accept()/the listening socket, or that speak
+# another transport: the httpd proxy hand-over (CONNECT / GET /proxied.connection), WebSocket upgrades that
+# succeed, fail or die half-way, a descriptor whose rfbSetNonBlocking fails, an inetd connection.  These are
+# OUTSIDE the Coq model: only the specification oracle (exactly one close per descriptor, hooks paired,
+# everything freed - LeakSanitizer -, refcounts = users, nothing of the application closed) judges them,
+# on the reference run and with a fault (EOF / ECONNRESET / EAGAIN) injected at every I/O call.
+def ws_frame(payload):
+    """client-to-server binary frame, mask key 0"""
+    assert len(payload) < 126
+    return bytes([0x82, 0x80 | len(payload), 0, 0, 0, 0]) + payload
+
+
+WS_OK = (b"GET /websockify/some/path HTTP/1.1\r\nHost: server.example\r\nUpgrade: websocket\r\nConnection: Upgrade\r\n"
+         b"Sec-WebSocket-Key: dGhlIHNhbXBsZSBub25jZQ==\r\nOrigin: http://example\r\nSec-WebSocket-Protocol: binary\r\n"
+         b"Sec-WebSocket-Version: 13\r\n\r\n")
+WS_NOVERSION = b"GET /a/rather/long/path/" + b"x" * 200 + b" HTTP/1.1\r\nHost: a\r\nOrigin: b\r\n\r\n"
+WS_NOKEY = b"GET /p HTTP/1.1\r\nHost: a\r\nOrigin: b\r\nSec-WebSocket-Version: 13\r\n\r\n"
+WS_NOHOST = b"GET /path/without/host HTTP/1.1\r\nSec-WebSocket-Key: dGhlIHNhbXBsZSBub25jZQ==\r\nSec-WebSocket-Version: 13\r\n\r\n"
+WS_PARTIAL = b"GET /half/way HTTP/1.1\r\nHost: a\r\nSec-WebSocket-Ver"
+PROXY_CONNECT = b"CONNECT localhost:5900 HTTP/1.0\r\n\r\n"
+PROXY_GET = b"GET /proxied.connection HTTP/1.0\r\n\r\n"
+
+
+def tcfg(http=0, **kw):
+    return cfg(**kw) + " %d" % http
+
+
+def transport_sessions():
+    T = {}
+    w = h = 8
+    ver = m_version(8)
+    def rfb_tail(k, wrap=lambda b: b):
+        return ["in %d %s" % (k, hx(wrap(bytes([1])))), "pe", "in %d %s" % (k, hx(wrap(bytes([1])))), "pe",
+                "in %d %s" % (k, hx(wrap(m_fur(0, w, h)))), "pe", "mark", "in %d %s" % (k, hx(wrap(m_fur(1, w, h)))), "pe"]
+    # httpd proxy hand-over: accepted / refused by newClientHook / on hold then refused, peer gone, next to a plain client
+    for name, req in (("connect", PROXY_CONNECT), ("get", PROXY_GET)):
+        T["proxy_%s_accept" % name] = [tcfg(1), "accept a"] + handshake(0) + ["haccept a " + hx(req + ver), "pe", "pe"] + rfb_tail(1) + [
+            "peerclose 1", "pe", "in 0 " + hx(m_fur(0, w, h)), "pe", "shutdown", "end"]
+        T["proxy_%s_refuse" % name] = [tcfg(1), "accept a"] + handshake(0) + ["haccept r " + hx(req + ver), "pe", "pe", "pe",
+            "accept a", "in 0 " + hx(m_fur(0, w, h)), "pe", "shutdown", "end"]
+        T["proxy_%s_hold" % name] = [tcfg(1), "haccept h " + hx(req + ver), "pe", "pe", "accept a", "refuse 0", "pe",
+            "haccept h " + hx(req + ver), "pe", "pe", "start 2"] + ["in 2 " + hx(bytes([1])), "pe", "appclose 2", "pe", "shutdown", "end"]
+    T["proxy_peer_gone"] = [tcfg(1), "haccept a " + hx(PROXY_CONNECT), "pe", "peerclose 0", "pe", "pe", "shutdown", "end"]
+    T["proxy_closed_at_accept"] = [tcfg(1), "haccept a closed", "pe", "pe", "pe", "shutdown", "end"]
+    T["proxy_bad_port"] = [tcfg(1), "haccept a " + hx(b"CONNECT localhost:1 HTTP/1.0\r\n\r\n"), "pe", "pe", "pe", "shutdown", "end"]
+    T["http_file"] = [tcfg(1), "accept a", "haccept a " + hx(b"GET /index.vnc HTTP/1.0\r\n\r\n"), "pe", "pe", "pe", "shutdown", "end"]
+    T["http_replaced"] = [tcfg(1), "haccept a " + hx(b"GET /inde"), "pe", "pe", "haccept r " + hx(PROXY_CONNECT + ver), "pe", "pe", "pe", "shutdown", "end"]
+    T["http_pending_at_shutdown"] = [tcfg(1), "accept a", "haccept a " + hx(b"CONNECT localhost:59"), "pe", "pe", "shutdown", "end"]
+    T["proxy_auth"] = [tcfg(1, auth=1), "haccept a " + hx(PROXY_GET + ver), "pe", "pe", "in 0 " + hx(bytes([2])), "pe",
+                       "in 0 " + hx(bytes([0] * 16)), "pe", "pe", "shutdown", "end"]
+    # WebSocket transport: upgrade succeeds (then RFB inside frames), is rejected after the GET line, dies half-way
+    for name, via in (("accept", "accept"), ("listen", "laccept")):
+        pe = ["pe"] if via == "laccept" else []
+        T["ws_ok_%s" % name] = [tcfg(0), "%s a %s" % (via, hx(WS_OK))] + pe + ["in 0 " + hx(ws_frame(ver)), "pe"] + rfb_tail(0, ws_frame) + [
+            "accept a", "peerclose 0", "pe", "pe", "shutdown", "end"]
+        T["ws_noversion_%s" % name] = [tcfg(0), "accept a", "%s a %s" % (via, hx(WS_NOVERSION))] + pe + ["pe", "shutdown", "end"]
+        T["ws_nokey_%s" % name] = [tcfg(0), "%s a %s" % (via, hx(WS_NOKEY))] + pe + ["pe", "accept a", "shutdown", "end"]
+    T["ws_nohost"] = [tcfg(0), "accept a " + hx(WS_NOHOST), "pe", "shutdown", "end"]
+    T["ws_partial"] = [tcfg(0), "accept a " + hx(WS_PARTIAL), "pe", "shutdown", "end"]
+    T["ws_partial_listen_gone"] = [tcfg(0), "laccept a " + hx(WS_PARTIAL), "pe", "pe", "shutdown", "end"]
+    T["ws_refused"] = [tcfg(0), "accept r " + hx(WS_OK), "pe", "accept h " + hx(WS_OK), "refuse 1", "pe", "shutdown", "end"]
+    T["ws_appclose"] = [tcfg(0), "accept a " + hx(WS_OK), "in 0 " + hx(ws_frame(ver)), "pe", "appclose 0", "pe", "shutdown", "end"]
+    T["ws_open_at_shutdown"] = [tcfg(0), "accept a " + hx(WS_OK), "in 0 " + hx(ws_frame(ver)), "pe", "shutdown", "end"]
+    T["ws_over_proxy"] = [tcfg(1), "haccept a " + hx(PROXY_CONNECT + WS_NOVERSION), "pe", "pe", "pe", "shutdown", "end"]
+    # rfbSetNonBlocking fails on the new descriptor (direct, listening socket, proxy)
+    T["nonblock_accept"] = [tcfg(0), "accept a"] + handshake(0) + ["setflfail 1", "accept a", "pe", "in 0 " + hx(m_fur(0, w, h)), "pe", "shutdown", "end"]
+    T["nonblock_listen"] = [tcfg(0), "setflfail 0", "laccept a " + hx(ver), "pe", "pe", "accept a", "shutdown", "end"]
+    # the process was started by inetd: screen->inetdSock becomes the one client
+    T["inetd_peerclose"] = [tcfg(0), "inetd a " + hx(ver), "pe"] + rfb_tail(0) + ["peerclose 0", "pe", "pe", "shutdown", "end"]
+    T["inetd_open_at_shutdown"] = [tcfg(0), "inetd a " + hx(ver), "pe"] + rfb_tail(0) + ["shutdown", "end"]
+    T["inetd_refused"] = [tcfg(0), "inetd r " + hx(ver), "pe", "pe", "shutdown", "end"]
+    T["inetd_appclose"] = [tcfg(0), "inetd a " + hx(ver), "pe", "appclose 0", "pe", "shutdown", "end"]
+    return T
+
+
+def impl_io_count(cexe, ops):
+    (co,), _, _ = run_chunks(cexe, [["case 0 tref"] + ops], env=ASAN_ENV, workers=1)
+    n = 0
+    for l in co[1]:
+        m = re.search(r" io=(\d+)", l)
+        if m:
+            n = max(n, int(m.group(1)))
+    return n
+
+
+def is_oracle_only(c):
+    return len(c[0].split()) > 2 and c[0].split()[2].startswith("t")
 
 
 # ---------------------------------------------------------------- reference sessions (fault sweep)
@@ -361,8 +451,8 @@ def parse_obs(line):
             continue
         k = int(m.group(1)); f = m.group(2).split(",")
         c = {"kind": "live", "seg": m.group(2)}
-        if f[0] in ("freed", "lost"):
-            c["kind"] = f[0]
+        if f[0] in ("freed", "lost", "http"):
+            c["kind"] = f[0]         # http = accepted by the HTTP server / handed in by inetd, not (yet) an RFB client
         else:
             c["state"] = int(f[0][1:]); c["open"] = (f[1] == "o")
         for t in f:
@@ -441,6 +531,8 @@ def oracle_case(script, obs_lines, extra, ref_rx0=None):
                     fails.append(("connection %d freed with %d gone-hook calls for %d new-hook calls (after '%s')" % (k, c["g"], c["n"], opline), {"defect": "gone_count"}))
                 if c["x"] != 1 or c["fd"] != 0:
                     fails.append(("connection %d freed with %d close() calls, descriptor %s (after '%s')" % (k, c["x"], "open" if c["fd"] else "closed", opline), {"defect": "close_count"}))
+            if c["kind"] == "http" and (c["x"] != 0 or c["fd"] != 1):
+                fails.append(("connection %d waits on the HTTP socket with %d close() calls, descriptor %s (after '%s')" % (k, c["x"], "open" if c["fd"] else "closed", opline), {"defect": "close_count"}))
             if c["kind"] == "live":
                 if c["open"] != (c["x"] == 0) or c["fd"] != (1 if c["open"] else 0):
                     fails.append(("connection %d: sock %s but %d close() calls / descriptor %s (after '%s')" % (k, "open" if c["open"] else "-1", c["x"], "open" if c["fd"] else "closed", opline), {"defect": "close_count"}))
@@ -517,6 +609,11 @@ def oracle_case(script, obs_lines, extra, ref_rx0=None):
         e = parse_stream(bytes.fromhex(rx[0][1]), script)
         if e:
             fails.append(("stream of connection 0 is not a well-formed RFB server stream: " + e, {"defect": "witness_stream"}))
+    # route by which the connection came in (for the findings file)
+    if any(l.startswith("setflfail") for l in script):
+        fails = [(m, dict(f, via="setnonblocking_failure") if f.get("defect") in ("heap_leak", "scaled_refcount") else f) for (m, f) in fails]
+    if any(l.startswith("inetd ") for l in script):
+        fails = [(m, dict(f, via="inetd") if f.get("defect") == "close_count" else f) for (m, f) in fails]
     return fails
 
 
@@ -634,7 +731,7 @@ def io_count(mexe, ops):
     return n
 
 
-def gen_cases(ctx, mexe):
+def gen_cases(ctx, mexe, cexe=None):
     rng = ctx.rng
     cases, meta = [], []      # meta[i] = reference case index (for the witness stream) or None
     def add(c, ref=None):
@@ -645,7 +742,8 @@ def gen_cases(ctx, mexe):
         for fn in sorted(os.listdir(cdir)):
             lines = [l for l in open(os.path.join(cdir, fn)).read().split("\n") if l.strip() and not l.startswith("#")]
             if lines and not lines[0].startswith("case "):
-                lines = ["case 0 corpus:%s" % fn] + lines
+                tr = any(l.split()[0] in ("haccept", "setflfail", "inetd") for l in lines) or len(lines[0].split()) > 9
+                lines = ["case 0 %s:%s" % ("tcorpus" if tr else "corpus", fn)] + lines
             add(lines)
     for c in directed_cases(0):
         add(c)
@@ -670,6 +768,19 @@ def gen_cases(ctx, mexe):
                 if i != j:
                     add(["case 0 sweep2:%s:%d:%d" % (name, i, j), ops[0], "fault %d %s" % (i, rng.choice(kinds)),
                          "fault %d %s" % (j, rng.choice(kinds))] + ops[1:], ref=base if name in WITNESS_REFS else None)
+    if cexe is not None:
+        ts = transport_sessions()
+        for name in sorted(ts):
+            ops = ts[name]
+            n = impl_io_count(cexe, ops)
+            add(["case 0 tref:%s" % name] + ops)
+            # a fault at every I/O call of the session (handshake bytes are read one by one: every 3rd index
+            # in the quick tier for the long ones, all of them otherwise)
+            stride = 1 if (n <= 60 or not ctx.quick()) else 3
+            for i in range(0, n, stride):
+                for kd in "era":
+                    add(["case 0 tsweep:%s:%d:%s" % (name, i, kd), ops[0], "fault %d %s" % (i, kd)] + ops[1:])
+                    sweep_points += 1
     nrand = 1500 if ctx.quick() else 30000
     for _ in range(nrand):
         add(rand_case(rng, 0))
@@ -685,11 +796,12 @@ def features_of(script, feat):
 
 def check(ctx):
     cexe, mexe, proof_ok = build(ctx)
-    cases, meta, sweep_points = gen_cases(ctx, mexe)
+    cases, meta, sweep_points = gen_cases(ctx, mexe, cexe)
     cres, crcs, cerrs = run_chunks(cexe, cases, env=ASAN_ENV)
-    mres, mrcs, merrs = run_chunks(mexe, cases)
+    mres, mrcs, merrs = run_chunks(mexe, [([c[0], "end"] if is_oracle_only(c) else c) for c in cases])
     nops = sum(len(c) - 1 for c in cases)
     hist, distinct, mismatches, oracle_fail, unmod = {}, set(), [], [], 0
+    n_oracle_only = 0
     rx0 = {}
     split = []
     for idx, c in enumerate(cases):
@@ -706,12 +818,16 @@ def check(ctx):
         il, ex, ml = split[idx]
         kind = c[0].split()[2].split(":")[0] if len(c[0].split()) > 2 else "?"
         hist[kind] = hist.get(kind, 0) + 1
-        if any("UNMODELLED" in l for l in ml):
+        oo = is_oracle_only(c)
+        if oo:
+            n_oracle_only += 1
+        elif any("UNMODELLED" in l for l in ml):
             unmod += 1
             continue
-        d = vlib.first_diff(il, ml)
-        if d is not None:
-            mismatches.append((idx, d))
+        else:
+            d = vlib.first_diff(il, ml)
+            if d is not None:
+                mismatches.append((idx, d))
         for l, op in zip(il, c[1:]):
             if ("X" in l.split(" ev=[")[1].split("]")[0]) if " ev=[" in l else False:
                 evs = l.split(" ev=[")[1].split("]")[0]
@@ -729,7 +845,8 @@ def check(ctx):
              "(operation, sequence of close/gone events, number of closed-unreaped clients) among operations that tore a connection down",
         samples=[cases[i] for i in (0, len(cases) // 2, len(cases) - 1)],
         input_distribution=hist, cases=len(cases), fault_sweep_points=sweep_points,
-        correspondence_mismatches=len(mismatches), unmodelled_cases=unmod,
+        correspondence_mismatches=len(mismatches), unmodelled_cases=unmod, oracle_only_cases=n_oracle_only,
+        oracle_only_note="tref/tsweep cases (httpd proxy hand-over, WebSocket upgrades, rfbSetNonBlocking failure, inetd) are outside the Coq model: judged by the specification oracle on the implementation's output only",
         oracle_failures=len(oracle_fail), exhaustive=False)
     ctx.assumptions += [
         "application-driven event loop only (backgroundLoop == FALSE); the threaded loop is C13",
@@ -829,6 +946,7 @@ def replay(ctx, path):
     for msg, feat in fails:
         ctx.violation("lifecycle property violated on the implementation: " + msg, feat,
                       "script:\n" + "\n".join(lines) + "\n\nimplementation output:\n" + "\n".join(co[1]))
-    if not fails and il != mo[1]:
+    transport = len(lines[1].split()) > 9 or any(l.split()[0] in ("haccept", "setflfail", "inetd") or "474554" in l for l in lines[1:])
+    if not fails and il != mo[1] and not transport:
         ctx.violation("correspondence differs on the replayed script", {"kind": "correspondence"},
                       "script:\n" + "\n".join(lines) + "\n\n" + "\n".join(co[1]) + "\n" + "\n".join(mo[1]), no_input=True)
